@@ -102,6 +102,7 @@ impl Shim {
         self.fault_base = 0;
         self.sizes.clear();
         self.trace_log.clear();
+        self.giant = 256 << 20;
     }
 
     /// Arms the fault plan: requests number `k` (1-based) counted from now are refused.
